@@ -360,7 +360,7 @@ class Repo:
                 events[h] = events.get(h, 0) + 1
         absorbed = set()
         for q, fi in self.funcs.items():
-            if q in KNOWN_FUNCS or q.split("#")[0] in KNOWN_FUNCS:
+            if self.is_known(q):
                 continue
             sites = self.callsites(q)
             if sites and events.get(fi.short, 0) >= len([1 for (caller, _c) in sites if caller.qualname != q]):
@@ -395,6 +395,28 @@ class Repo:
                         return m
             raise AnalysisError(f"anchor function vanished: {qualname}")
         return fi
+
+    def is_known(self, qualname: str) -> bool:
+        """the function belongs to the frozen census -- under its own name, or (a method moved up or down the class
+        hierarchy keeps its identity) as `module.Other.name` for a class Other related to its class by inheritance"""
+        from .known_funcs import KNOWN_FUNCS
+        q0 = qualname.split("#")[0]
+        if qualname in KNOWN_FUNCS or q0 in KNOWN_FUNCS:
+            return True
+        fi = self.funcs.get(qualname)
+        if fi is None or fi.cls is None or fi.parent is not None:
+            return False
+        cache = self.__dict__.setdefault("_known_rel", {})
+        if qualname in cache:
+            return cache[qualname]
+        ci = self.classes.get(fi.cls) if isinstance(fi.cls, str) else fi.cls
+        res = False
+        if ci is not None:
+            related = {c.name for c in self.mro(ci)} | {c.name for c in self.subclasses(ci)}
+            mod = fi.module.name
+            res = any(f"{mod}.{r}.{fi.name}" in KNOWN_FUNCS for r in related if r != ci.name)
+        cache[qualname] = res
+        return res
 
     def has_func(self, qualname: str) -> bool:
         return qualname in self.funcs
